@@ -978,7 +978,7 @@ class CSSSerializer:
 
             # name
             for part in nameseq:
-                if hasattr(part, 'cssText'):
+                if hasattr(type(part), 'cssText'):
                     out.append(part.cssText)
                 elif property.literalname == part:
                     out.append(self._propertyname(property, part))
@@ -999,7 +999,7 @@ class CSSSerializer:
             if out and priorityseq:
                 out.append(' ')
                 for part in priorityseq:
-                    if hasattr(part, 'cssText'):  # comments
+                    if hasattr(type(part), 'cssText'):  # comments
                         out.append(part.cssText)
                     else:
                         if (
@@ -1019,7 +1019,7 @@ class CSSSerializer:
         # TODO: use Out()
         out = []
         for part in priorityseq:
-            if hasattr(part, 'cssText'):  # comments
+            if hasattr(type(part), 'cssText'):  # comments
                 out.append(' ')
                 out.append(part.cssText)
                 out.append(' ')
@@ -1037,7 +1037,7 @@ class CSSSerializer:
                 type_, val = item.type, item.value
                 if valuesOnly and type_ == cssutils.css.CSSComment:
                     continue
-                elif hasattr(val, 'cssText'):
+                elif hasattr(type(val), 'cssText'):
                     # RGBColor or CSSValue if a CSSValueList
                     out.append(val.cssText, type_)
                 else:
@@ -1137,7 +1137,7 @@ class CSSSerializer:
 
                 if valuesOnly and type_ == cssutils.css.CSSComment:
                     continue
-                elif hasattr(val, 'cssText'):
+                elif hasattr(type(val), 'cssText'):
                     # RGBColor or CSSValue if a CSSValueList
                     out.append(val.cssText, type_)
                 elif type_ == 'CHAR' and val in '-+*/':
